@@ -2,7 +2,7 @@
 //! copy of the library whose locks / atomics / once cells / channels are shuttle's, so that
 //! every synchronisation operation *inside* the library is a scheduling point.
 //!
-//! usage: mc-sx <quick|thorough> [--case <label>]
+//! usage: mc-sx <quick|thorough> [--mapper] [--case <label>]   (--mapper: the C18 PaletteMapper harness)
 //! stdout: one JSON line per configuration
 //!   {"case": "...", "schedules": n, "capped": bool, "bad": null | "message"}
 //! and a final {"done": true, "configs": n}.  Loading the sprite, the baselines (each call on
@@ -21,6 +21,103 @@ fn label(cfg: &[Vec<usize>]) -> String {
 
 thread_local! {
     static LAST_PANIC: std::cell::RefCell<Option<String>> = const { std::cell::RefCell::new(None) };
+}
+
+/// C18: one PaletteMapper shared by 2-3 threads that look up colours at overlapping times; every
+/// interleaving of the mapper's own synchronisation operations (if it has any) is explored.
+fn mapper_mode(thorough: bool, only: Option<String>) {
+    use asefile::util::{MappingOptions, PaletteMapper};
+    let bytes = Arc::new(subject().encode());
+    // colours: four palette entries of the subject and one colour the palette does not hold
+    let colours: Vec<[u8; 3]> = {
+        let f = asefile::AsepriteFile::read(Cursor::new(&bytes[..])).expect("subject loads");
+        let p = f.palette().expect("palette");
+        let mut v: Vec<[u8; 3]> = (0..4).map(|i| { let c = p.color(i).unwrap(); [c.red(), c.green(), c.blue()] }).collect();
+        v.push([1, 2, 3]);
+        v
+    };
+    let nc = colours.len();
+    let mut configs: Vec<Vec<Vec<usize>>> = Vec::new();
+    for a in 0..nc { for b in 0..nc { for c in 0..nc { for d in 0..nc { configs.push(vec![vec![a, b], vec![c, d]]); } } } }
+    for a in 0..nc { for b in 0..nc { for c in 0..nc { configs.push(vec![vec![a], vec![b], vec![c]]); } } }
+    if thorough {
+        for a in 0..nc { for b in 0..nc { for c in 0..nc { configs.push(vec![vec![a, b, c], vec![c, a, b]]); } } }
+    }
+    let lab = |cfg: &Vec<Vec<usize>>| format!("mapper lookups {:?}", cfg.iter().map(|t| t.iter().map(|i| colours[*i]).collect::<Vec<_>>()).collect::<Vec<_>>());
+    let configs: Vec<Vec<Vec<usize>>> = configs.into_iter().filter(|c| only.as_ref().map_or(true, |o| *o == lab(c))).collect();
+    let cap: usize = if thorough { 1_000_000 } else { 20_000 };
+    let failing = AtomicUsize::new(0);
+    let next = AtomicUsize::new(0);
+    let out = Mutex::new(());
+    let workers = std::thread::available_parallelism().map(|n| n.get()).unwrap_or(4).min(16);
+    std::thread::scope(|s| {
+        for _ in 0..workers {
+            s.spawn(|| loop {
+                let k = next.fetch_add(1, Relaxed);
+                if k >= configs.len() {
+                    break;
+                }
+                if failing.load(Relaxed) >= 12 {
+                    let _g = out.lock().unwrap();
+                    println!("{}", serde_json::json!({"case": lab(&configs[k]), "skipped": true}));
+                    continue;
+                }
+                let cfg = configs[k].clone();
+                let count = Arc::new(AtomicU64::new(0));
+                let bad: Arc<Mutex<Option<String>>> = Arc::new(Mutex::new(None));
+                let (bytes2, cfg2, count2, bad2, cols) = (bytes.clone(), cfg.clone(), count.clone(), bad.clone(), colours.clone());
+                LAST_PANIC.with(|p| *p.borrow_mut() = None);
+                let r = std::panic::catch_unwind(std::panic::AssertUnwindSafe(|| {
+                    shuttle::check_dfs(
+                        move || {
+                            count2.fetch_add(1, Relaxed);
+                            let f = asefile::AsepriteFile::read(Cursor::new(&bytes2[..])).expect("subject loads");
+                            let p = f.palette().expect("palette");
+                            // expected: each colour looked up alone on a mapper of its own
+                            let expect: Vec<u8> = cols.iter().map(|c| PaletteMapper::new(p, MappingOptions { failure: 77, transparent: Some(66) }).lookup(c[0], c[1], c[2], 255)).collect();
+                            let expect = Arc::new(expect);
+                            let mapper = Arc::new(PaletteMapper::new(p, MappingOptions { failure: 77, transparent: Some(66) }));
+                            let mut hs = Vec::new();
+                            for (ti, calls) in cfg2.iter().enumerate() {
+                                let (mapper, expect, calls, bad3, cols) = (mapper.clone(), expect.clone(), calls.clone(), bad2.clone(), cols.clone());
+                                hs.push(shuttle::thread::spawn(move || {
+                                    for i in calls {
+                                        shuttle::thread::yield_now();
+                                        let c = cols[i];
+                                        let got = mapper.lookup(c[0], c[1], c[2], 255);
+                                        if got != expect[i] {
+                                            let mut b = bad3.lock().unwrap();
+                                            if b.is_none() {
+                                                *b = Some(format!("thread {}: lookup{:?} = {} under this schedule, {} on a mapper of its own", ti, c, got, expect[i]));
+                                            }
+                                            drop(b);
+                                            panic!("mismatch");
+                                        }
+                                    }
+                                }));
+                            }
+                            for h in hs {
+                                h.join().unwrap();
+                            }
+                        },
+                        Some(cap),
+                    );
+                }));
+                let nsch = count.load(Relaxed);
+                let mut b = bad.lock().unwrap().clone();
+                if r.is_err() && b.is_none() {
+                    b = Some(format!("panic / deadlock under shuttle: {}", LAST_PANIC.with(|p| p.borrow_mut().take()).unwrap_or_default()));
+                }
+                if b.is_some() {
+                    failing.fetch_add(1, Relaxed);
+                }
+                let line = serde_json::json!({"case": lab(&cfg), "threads": cfg.len(), "calls": cfg.iter().map(|t| t.len()).sum::<usize>(), "schedules": nsch, "capped": nsch as usize >= cap, "bad": b});
+                let _g = out.lock().unwrap();
+                println!("{}", line);
+            });
+        }
+    });
+    println!("{}", serde_json::json!({"done": true, "configs": configs.len(), "cap": cap}));
 }
 
 fn main() {
@@ -46,6 +143,9 @@ fn main() {
             });
         });
     }));
+    if args.iter().any(|a| a == "--mapper") {
+        return mapper_mode(thorough, only);
+    }
     let bytes = Arc::new(subject().encode());
     let n = CALLS.len();
     let cap: usize = if thorough { 1_000_000 } else { 20_000 };
